@@ -12,8 +12,8 @@
       - adapter/adapter_memory.go [Broadcast]/[apply] (one adapter, hence one room table, per namespace);
       - client_manager.go [socket] (name normalisation, one socket per name), [onParserFinish] (dispatch
         to the socket registered for exactly the packet's namespace, silently dropped otherwise);
-      - client_socket.go [Connect], [emit]/[_sendBuffers] (as coded: packets are sent when the socket is
-        connected OR its CONNECT is pending; buffered only when disconnected), [onPacket], [onConnect]/[emitBuffered], [Disconnect],
+      - client_socket.go [Connect], [emit]/[_sendBuffers] (repaired code: packets are sent only once the CONNECT
+        reply arrived, buffered before), [onPacket], [onConnect]/[emitBuffered], [Disconnect],
         [destroy] -> manager [destroy]/[Close].
 
     Namespaces are byte strings.  The per-namespace state is a function of the namespace name, so
@@ -288,12 +288,9 @@ Definition c_emit (c : N) (n0 : nsname) (tag : N) (ack : bool) (m : manager) : m
   let acks := if ack then (cs_ack k, tag) :: cs_acks k else cs_acks k in
   let nxt := if ack then cs_ack k + 1 else cs_ack k in
   match cs_state k with
-  | CDisc => (put_sock m n (mkCS CDisc (cs_active k) acks nxt (cs_sbuf k ++ [p]) (cs_rbuf k)), [])
-  | st =>
-      (* client_socket.go _sendBuffers: sendImmediately := Connected || ConnectPending.
-         A closed manager drops what it is handed. *)
-      (put_sock m n (mkCS st (cs_active k) acks nxt (cs_sbuf k) (cs_rbuf k)),
-       if m_open m then [OSend c p] else [])
+  | CConn => (put_sock m n (mkCS CConn (cs_active k) acks nxt (cs_sbuf k) (cs_rbuf k)),
+              if m_open m then [OSend c p] else [])
+  | st => (put_sock m n (mkCS st (cs_active k) acks nxt (cs_sbuf k ++ [p]) (cs_rbuf k)), [])
   end.
 
 Definition c_disc (c : N) (n0 : nsname) (m : manager) : manager * list out :=
